@@ -1033,4 +1033,7 @@ theorem hostGet_ok (root : Scope) (x : String) (k : Nat) (h : hostGet root x = .
     · cases h
   · cases h
 
+/-- the error a compilation ended with, if any (for closed examples) -/
+def errOf (r : Except Err Scope) : Option Err := match r with | .error e => some e | .ok _ => none
+
 end XrayModel.Scope
